@@ -148,8 +148,22 @@ where
     /// # Ok::<_, std::io::Error>(())
     /// ```
     pub fn write_record(&mut self, header: &Header, record: &Record) -> io::Result<()> {
-        write_record(&mut self.inner, header, record)
-            .map_err(|e| io::Error::new(io::ErrorKind::InvalidInput, e))
+        self.write_serialized_record(header, record)
+    }
+
+    // A record is written as a whole or not at all, i.e., a record that fails to serialize does not
+    // leave a partial line in the output.
+    fn write_serialized_record(
+        &mut self,
+        header: &Header,
+        record: &dyn crate::variant::Record,
+    ) -> io::Result<()> {
+        let mut buf = Vec::new();
+
+        write_record(&mut buf, header, record)
+            .map_err(|e| io::Error::new(io::ErrorKind::InvalidInput, e))?;
+
+        self.inner.write_all(&buf)
     }
 }
 
@@ -166,8 +180,7 @@ where
         header: &Header,
         record: &dyn crate::variant::Record,
     ) -> io::Result<()> {
-        write_record(&mut self.inner, header, record)
-            .map_err(|e| io::Error::new(io::ErrorKind::InvalidInput, e))
+        self.write_serialized_record(header, record)
     }
 }
 
